@@ -333,7 +333,11 @@ def run(ctx):
                 gates.append(parts)
                 return True      # diagonal modulus > tol
             if parts and parts[0] == "eq":
-                return False     # |q|^2 == 0 : no
+                from qstatic.scenario import is_nonneg
+                lhs_, rhs_ = P(parts[1]), P(parts[2])
+                if (rhs_.is_zero() and is_nonneg(lhs_) and lhs_.as_single_atom() is None) or (lhs_.is_zero() and is_nonneg(rhs_)):
+                    return False     # |q|^2 == 0 (a sum of squares / a modulus): no
+                return None          # a zero test of a single component: generic outcome + specialised scenario
             return None
         it, d = new_interp(ctx, chooser=chooser)
         pu, pb = planes_of(U), planes_of(B)
